@@ -76,6 +76,10 @@ def build_terms():
             "z": (lambda w, c=cls, q=p: RT.membership(c, q, 1.0, w)),
             "tsukamoto": (lambda w, c=cls, q=p: RT.tsukamoto(c, q, 1.0, w)) if mono else None,
         }
+    import copy
+    for name in list(real):
+        twin = copy.copy(real[name])  # same name and parameters, different object (Linear/Function keep the engine reference)
+        real["~" + name] = twin
     return real, ref
 
 
@@ -114,7 +118,8 @@ def shared_instance(which: str, real):
 
 def run_seq(acc: Acc, real, ref, group: str, aggr_name, seq, impl_cache) -> None:
     aggr = getattr(fl, aggr_name)() if aggr_name else None
-    acts = [fl.Activated(real[n], d, None) for n, d in seq]
+    # activations of one term alternate between two distinct objects with the same name: grouping is by NAME
+    acts = [fl.Activated(real[n] if k % 2 == 0 else real["~" + n], d, None) for k, (n, d) in enumerate(seq)]
     agg = fl.Aggregated("o", 0.0, 1.0, aggr, acts)
     case0 = {"group": group, "aggregation": aggr_name, "sequence": [list(s) for s in seq]}
     # grouped_terms / activation_degree
